@@ -270,4 +270,76 @@ theorem run_prefix (boundary p q : Bytes) (o : Obs) (h : run boundary (p ++ q) =
     | none => rw [hr] at h; cases h
     | some r => exact ⟨r.obs, rfl⟩
 
+/-! ### what the expected sections contain -/
+
+theorem slice_mid (a b c : Bytes) : slice (a ++ (b ++ c)) a.length (a.length + b.length) = b := by
+  unfold slice
+  rw [← List.append_assoc, List.take_append_of_le_length (by simp), List.take_of_length_le (by simp)]
+  simp
+
+theorem sectionBytes_mid (a b c : Bytes) (name : SecName) (x y : Nat) (hx : x = a.length)
+    (hy : y = a.length + b.length) : sectionBytes (a ++ (b ++ c)) ⟨name, (x : Int), (y : Int)⟩ = b := by
+  subst hx; subst hy
+  simp only [sectionBytes, Int.toNat_natCast]
+  exact slice_mid a b c
+
+theorem partMarkups_contents (boundary : Bytes) : ∀ (parts : List Part) (pre suf : Bytes),
+    (∀ p ∈ parts, 2 ≤ (headerBlock p.lines).length) →
+    (partMarkups (delim boundary).length pre.length parts).map
+        (sectionBytes (pre ++ (encodeParts boundary parts ++ suf))) =
+      parts.flatMap fun p => [(headerBlock p.lines).take ((headerBlock p.lines).length - 2), p.data] := by
+  intro parts
+  induction parts with
+  | nil => intro pre suf _; rfl
+  | cons p ps ih =>
+    intro pre suf hlen
+    have h2 := hlen p List.mem_cons_self
+    generalize hhb : headerBlock p.lines = hb at h2
+    have hsplit : hb = hb.take (hb.length - 2) ++ hb.drop (hb.length - 2) := (List.take_append_drop _ _).symm
+    have hdl : (hb.drop (hb.length - 2)).length = 2 := by simp; omega
+    have htl : (hb.take (hb.length - 2)).length = hb.length - 2 := by simp
+    have hbody : pre ++ (encodeParts boundary (p :: ps) ++ suf) =
+        (pre ++ CRLF) ++ (hb.take (hb.length - 2) ++
+          ((hb.drop (hb.length - 2) ++ CRLF) ++ (p.data ++ (delim boundary ++ (encodeParts boundary ps ++ suf))))) := by
+      simp only [encodeParts, List.map_cons, List.flatten_cons, encodePart, hhb, List.append_assoc]
+      rw [← List.append_assoc (hb.take _) (hb.drop _), ← hsplit]
+    have hbody2 : pre ++ (encodeParts boundary (p :: ps) ++ suf) =
+        (pre ++ CRLF ++ hb ++ CRLF) ++ (p.data ++ ((delim boundary) ++ (encodeParts boundary ps ++ suf))) := by
+      simp only [encodeParts, List.map_cons, List.flatten_cons, encodePart, hhb, List.append_assoc]
+    have hbody3 : pre ++ (encodeParts boundary (p :: ps) ++ suf) =
+        (pre ++ encodePart boundary p) ++ (encodeParts boundary ps ++ suf) := by
+      simp only [encodeParts, List.map_cons, List.flatten_cons, List.append_assoc]
+    simp only [partMarkups, List.map_cons, List.flatMap_cons, hhb, List.cons_append, List.nil_append]
+    congr 1
+    · rw [hbody]
+      have := sectionBytes_mid (pre ++ CRLF) (hb.take (hb.length - 2))
+        ((hb.drop (hb.length - 2) ++ CRLF) ++ (p.data ++ (delim boundary ++ (encodeParts boundary ps ++ suf))))
+        .headers (pre.length + 2) (pre.length + 2 + hb.length - 2) (by simp [CRLF]) (by simp [CRLF]; omega)
+      exact this
+    · congr 1
+      · rw [hbody2]
+        exact sectionBytes_mid (pre ++ CRLF ++ hb ++ CRLF) p.data _ .data _ _ (by simp [CRLF]; omega)
+          (by simp [CRLF]; omega)
+      · rw [hbody3]
+        have hpl : (pre ++ encodePart boundary p).length =
+            pre.length + 2 + hb.length - 2 + 4 + p.data.length + (delim boundary).length := by
+          simp [encodePart, hhb, CRLF]; omega
+        rw [← hpl]
+        exact ih (pre ++ encodePart boundary p) suf (fun q hq => hlen q (List.mem_cons_of_mem _ hq))
+
+theorem expected_contents (boundary : Bytes) (parts : List Part) (epi : Bytes) (hwf : WFBody boundary parts) :
+    (expectedMarkups boundary parts).map (sectionBytes (encodeBody boundary parts epi)) =
+      expectedContents parts := by
+  unfold expectedMarkups expectedContents
+  simp only [List.map_cons]
+  congr 1
+  have := partMarkups_contents boundary parts (HYPHENx2 ++ boundary) (HYPHENx2 ++ epi)
+    (fun p hp => by
+      have h := hwf.2 p hp
+      have := headerBlock_length_ge p.lines h.1 h.2.1
+      omega)
+  have hl : (HYPHENx2 ++ boundary).length = 2 + boundary.length := by simp [HYPHENx2]; omega
+  rw [hl] at this
+  exact this
+
 end Ombott.Multipart
